@@ -392,11 +392,18 @@ def sign_ambiguous(calls, kept):
     return False
 
 
-def run_impl(kind, X, rank, extra):
-    """returns (status, value, tape) ; value: list of factor arrays or (core, factors)"""
+def run_impl(kind, X, rank, extra, via_class=False):
+    """returns (status, value, tape) ; value: list of factor arrays or (core, factors).
+    via_class: go through the DecompositionMixin classes (TensorTrain / TensorTrainMatrix / TensorRing / Tucker).fit_transform"""
     from tensorly.decomposition import tensor_train, tensor_train_matrix, tensor_ring, tucker
+    if via_class:
+        from tensorly.decomposition import TensorTrain, TensorTrainMatrix, TensorRing, Tucker
+        tensor_train = lambda X_, r_, **kw: TensorTrain(r_, **kw).fit_transform(X_)
+        tensor_train_matrix = lambda X_, r_, **kw: TensorTrainMatrix(r_, **kw).fit_transform(X_)
+        tensor_ring = lambda X_, r_, **kw: TensorRing(r_, **kw).fit_transform(X_)
+        tucker = lambda X_, r_, **kw: Tucker(rank=r_, **kw).fit_transform(X_)
     C.reset_backends()
-    rank_arg = rank if isinstance(rank, int) else list(rank)   # fresh list: the code writes into it
+    rank_arg = rank if isinstance(rank, (int, float, str)) else list(rank)   # fresh list: the code writes into it
     with Tape() as tp:
         if kind == "tt":
             st, v = C.call_impl(lambda: [np.asarray(f) for f in tensor_train(X, rank_arg, **extra).factors], timeout=TIMEOUT)
@@ -623,6 +630,12 @@ def gen_corr_cases(tier, rng, nrng):
     """small cases for the model <-> implementation comparison inside Coq"""
     shapes = small_shapes(tier)
     N = 170 if tier == "quick" else 1500
+    # tucker with several HOOI sweeps on generic tensors whose modes all have size >= 2 (every mode's update matters in every sweep)
+    for i in range(6 if tier == "quick" else 30):
+        shape = [(2, 2, 2), (2, 3, 2), (2, 2, 2, 2), (3, 2, 2, 2), (2, 2, 3, 2), (3, 3, 2)][i % 6]
+        X = np.round(nrng.standard_normal(shape) * 16) / 16
+        rank = [rng.choice([1, 2]) for _ in shape]
+        yield "tucker", X, rank, {"n_iter_max": rng.choice([2, 3]), "tol": 0, "init": "svd"}, {"cls": "generic", "valid": True}
     # tensor_ring with ONE int >= 2 for every bond: valid only when the first unfolding has min dimension >= 4
     for i in range(6 if tier == "quick" else 40):
         shape, modes = rng.choice([((4, 2, 2), [0]), ((2, 4, 2), [1]), ((4, 4), [0, 1]), ((2, 2, 4), [2]), ((4, 2, 3), [0]), ((2, 2, 2, 4), [3])])
@@ -679,6 +692,185 @@ def gen_corr_cases(tier, rng, nrng):
             it = rng.choice([0, 1, 1, 2])
             rank = rng.choice([1, 2, 5]) if rng.random() < 0.12 else [rng.choice([1, 2, 3, 4]) for _ in range(order)]
             yield kind, X, rank, {"n_iter_max": it, "tol": 0, "init": "svd"}, {"cls": cls, "valid": True}
+
+
+# ----------------------------------------------------------------------------- AST tie of the integer decision logic
+# The rank-clipping / rotation / reordering / validation expressions of the CURRENT source are translated from the Python ast
+# to Gallina on every run and PROVED equal (coqc) to what the model functions compute (realised_body <- chain_loop by
+# C09_tensor_train_realised_rank / chain_loop_realised, tr_rotate_rank, rotate, tr_core, strict_body_code).  A source statement
+# that cannot be found / translated any more is counted (the differential correspondence still covers it, not a verdict);
+# a translated statement whose goal does not prove means the model no longer mirrors the code.
+class Untranslatable(Exception):
+    pass
+
+
+def _is_list(node):
+    import ast
+    if isinstance(node, ast.Subscript):
+        return isinstance(node.slice, ast.Slice)
+    if isinstance(node, ast.Call) and isinstance(node.func, ast.Name):
+        return node.func.id in ("tuple", "list", "range")
+    if isinstance(node, ast.BinOp) and isinstance(node.op, ast.Add):
+        return _is_list(node.left) and _is_list(node.right)
+    return False
+
+
+def _ga(node, env):
+    """Python expression (ast) -> Gallina term over nat / list; env maps source sub-expressions (ast.unparse text) to Gallina"""
+    import ast
+    src = ast.unparse(node)
+    if src in env:
+        return env[src]
+    if isinstance(node, ast.Constant) and isinstance(node.value, int) and node.value >= 0:
+        return str(node.value)
+    if isinstance(node, ast.Name):
+        raise Untranslatable(f"free name {node.id}")
+    if isinstance(node, ast.BinOp):
+        a, b = node.left, node.right
+        if isinstance(node.op, ast.Mult):
+            return f"({_ga(a, env)} * {_ga(b, env)})"
+        if isinstance(node.op, ast.Sub):
+            return f"({_ga(a, env)} - {_ga(b, env)})"
+        if isinstance(node.op, ast.Add):
+            la, lb = _ga(a, env), _ga(b, env)
+            return f"({la} ++ {lb})" if (_is_list(a) and _is_list(b)) else f"({la} + {lb})"
+    if isinstance(node, ast.Call) and isinstance(node.func, ast.Name):
+        f = node.func.id
+        args = [_ga(x, env) for x in node.args]
+        if f in ("int", "tuple", "list") and len(args) == 1:
+            return args[0]
+        if f == "min" and len(args) >= 2:
+            out = args[-1]
+            for x in reversed(args[:-1]):
+                out = f"(Nat.min {x} {out})"
+            return out
+        if f == "range" and len(args) == 1:
+            return f"(seq 0 {args[0]})"
+        if f == "range" and len(args) == 2:
+            return f"(seq {args[0]} ({args[1]} - {args[0]}))"
+    if isinstance(node, ast.Compare) and len(node.ops) == 1 and isinstance(node.ops[0], ast.Gt):
+        return f"({_ga(node.comparators[0], env)} <? {_ga(node.left, env)})"
+    if isinstance(node, ast.Subscript):
+        l = _ga(node.value, env)
+        sl = node.slice
+        if isinstance(sl, ast.Slice) and sl.step is None:
+            def neg(x):
+                return isinstance(x, ast.UnaryOp) and isinstance(x.op, ast.USub)
+            lo, hi = sl.lower, sl.upper
+            if lo is not None and neg(lo) and hi is None:
+                return f"(lastn {_ga(lo.operand, env)} {l})"
+            if lo is None and hi is not None and neg(hi):
+                return f"(firstn (length {l} - {_ga(hi.operand, env)}) {l})"
+            if lo is None and hi is not None:
+                return f"(firstn {_ga(hi, env)} {l})"
+            if lo is not None and hi is None:
+                return f"(skipn {_ga(lo, env)} {l})"
+            if lo is not None and hi is not None:
+                return f"(firstn ({_ga(hi, env)} - {_ga(lo, env)}) (skipn {_ga(lo, env)} {l}))"
+        elif not isinstance(sl, ast.Slice):
+            return f"(nth {_ga(sl, env)} {l} 0)"
+    raise Untranslatable(src)
+
+
+def _find_stmt(fn, pred, nth=0):
+    import ast
+    hits = [n for n in ast.walk(fn) if pred(n)]
+    hits.sort(key=lambda n: (n.lineno, n.col_offset))
+    if len(hits) <= nth:
+        raise Untranslatable("statement not found")
+    return hits[nth]
+
+
+def _assign_to(name):
+    import ast
+    return lambda n: isinstance(n, ast.Assign) and len(n.targets) == 1 and isinstance(n.targets[0], ast.Name) and n.targets[0].id == name
+
+
+def ast_tie(chk):
+    import ast, os, subprocess
+    def fn_of(relpath, fname):
+        tree = ast.parse(open(os.path.join(C.REPO, relpath)).read())
+        for n in ast.walk(tree):
+            if isinstance(n, ast.FunctionDef) and n.name == fname:
+                return n
+        raise Untranslatable(f"{fname} not found")
+    goals, skipped = [], []
+
+    def add(name, build):
+        try:
+            goals.append((name, build()))
+        except (Untranslatable, OSError, SyntaxError, KeyError, IndexError) as e:
+            skipped.append(f"{name}: {e}")
+
+    LOOP_ENV = {"rank[k]": "rk", "tensor_size[k]": "n", "rank[k + 1]": "(hd 1 ranks)", "n_column": "(prod (n2 :: rest2))"}
+
+    def loop_goal(relpath, fname):
+        fn = fn_of(relpath, fname)
+        n_row = _ga(_find_stmt(fn, _assign_to("n_row")).value, LOOP_ENV)
+        cur = _ga(_find_stmt(fn, _assign_to("current_rank")).value, dict(LOOP_ENV, n_row=n_row))
+        return (f"forall (n n2 : nat) (rest2 : list nat) (rk : nat) (ranks : list nat),\n  realised_body (n :: n2 :: rest2) rk ranks = "
+                f"{cur} :: realised_body (n2 :: rest2) {cur} (tl ranks)", "intros; rewrite realised_body_cons; first [reflexivity | match goal with |- ?a :: _ = ?b :: _ => replace b with a by lia end; reflexivity]")
+    add("tt_loop_rank_clipping", lambda: loop_goal("tensorly/decomposition/_tt.py", "tensor_train"))
+    add("tr_loop_rank_clipping", lambda: loop_goal("tensorly/decomposition/_tr_svd.py", "tensor_ring"))
+
+    def tr_goals():
+        fn = fn_of("tensorly/decomposition/_tr_svd.py", "tensor_ring")
+        env = {"rank": "rank", "mode": "mode", "n_dim": "n_dim", "__list_add__": True}
+        rot = _ga(_find_stmt(fn, _assign_to("rank"), 1).value, env)
+        order = _ga(_find_stmt(fn, _assign_to("order")).value, env)
+        reorder = _ga(_find_stmt(fn, _assign_to("factors"), 1).value, {"factors": "fs", "mode": "mode", "__list_add__": True})
+        import ast as _a
+        cond = _find_stmt(fn, lambda n: isinstance(n, _a.If) and isinstance(n.test, _a.Compare) and "rank[0] * rank[1]" in _a.unparse(n.test.left)
+                          and any(isinstance(b, _a.Raise) for b in n.body))
+        c = _ga(cond.test, {"rank[0]": "(nth 0 rk 0)", "rank[1]": "(nth 1 rk 0)", "n_row": "(hd 0 (shape Xp))", "n_column": "(prod (tl (shape Xp)))"})
+        return [("tr_rank_rotation", f"forall (n_dim mode : nat) (rank : list nat), {rot} = tr_rotate_rank n_dim mode rank", "intros; reflexivity"),
+                ("tr_mode_order", f"forall (n_dim mode : nat), mode <= n_dim -> {order} = rotate mode (seq 0 n_dim)", "intros; symmetry; now apply rotate_seq"),
+                ("tr_factor_reorder", f"forall (fs : list (tensor Q)) (mode : nat), {reorder} = lastn mode fs ++ firstn (length fs - mode) fs", "intros; reflexivity"),
+                ("tr_first_rank_check_condition", f"forall (Xp : tensor Q) (rk : list nat), {c} = (Nat.min (hd 0 (shape Xp)) (prod (tl (shape Xp))) <? nth 0 rk 0 * nth 1 rk 0)",
+                 "intros; apply Bool.eq_true_iff_eq; rewrite !Nat.ltb_lt; lia"),
+                ("tr_first_rank_check", f"forall (svd : nat -> tensor Q -> svdans) (Xp : tensor Q) (rk : list nat), {c} = true -> tr_core Qops svd Xp rk = Err",
+                 "intros svd Xp rk H; assert (H2 : (Nat.min (hd 0 (shape Xp)) (prod (tl (shape Xp))) <? nth 0 rk 0 * nth 1 rk 0) = true) by (revert H; rewrite !Nat.ltb_lt; lia); unfold tr_core; cbv zeta; rewrite H2; reflexivity")]
+    try:
+        for g in tr_goals():
+            goals.append((g[0], (g[1], g[2])))
+    except (Untranslatable, OSError, SyntaxError, KeyError, IndexError) as e:
+        skipped.append(f"tensor_ring decision logic: {e}")
+
+    def strict_goal():
+        fn = fn_of("tensorly/tt_tensor.py", "validate_tt_rank")
+        env = {"validated_rank[i]": "(nth i validated 0)", "s": "s", "rank[i + 1]": "(nth (S i) rank 0)", "n_column": "(prod (s2 :: rest2))"}
+        n_row = _ga(_find_stmt(fn, _assign_to("n_row")).value, env)
+        import ast as _a
+        app = _find_stmt(fn, lambda n: isinstance(n, _a.Call) and isinstance(n.func, _a.Attribute) and n.func.attr == "append"
+                         and isinstance(n.func.value, _a.Name) and n.func.value.id == "validated_rank" and isinstance(n.args[0], _a.Call))
+        e = _ga(app.args[0], dict(env, n_row=n_row))
+        return (f"forall (s s2 : nat) (rest2 : list nat) (i : nat) (validated rank : list nat),\n  strict_loop_code (s :: s2 :: rest2) i validated rank = "
+                f"strict_loop_code (s2 :: rest2) (S i) (validated ++ [{e}]) rank", "intros; rewrite strict_loop_code_cons; first [reflexivity | do 3 f_equal; lia]")
+    add("validate_tt_rank_strict_step", strict_goal)
+
+    d = os.path.join(C.BUILD, "ast", f"C09_{os.getpid()}"); os.makedirs(d, exist_ok=True)
+    fnm = os.path.join(d, "C09_ast.v")
+    with open(fnm, "w") as f:
+        f.write("From Coq Require Import List Arith QArith Lia Bool. Import ListNotations.\n"
+                "From TLV Require Import Base.Shape Base.PyList Base.Tensor Base.Ops Model.Base Model.SvdDecomp Proofs.SvdDecompRing Proofs.SvdDecompValidate.\nOpen Scope nat_scope.\n")
+        for name, (stmt, tac) in goals:
+            f.write(f"Lemma ast_{name} : {stmt}.\nProof. {tac}. Qed.\n")
+    failed = []
+    try:
+        r = subprocess.run(["timeout", "300", "coqc", "-R", os.path.join(C.COQ, "theories"), "TLV", fnm], capture_output=True, text=True, cwd=d)
+        if r.returncode == 124:
+            skipped.append("coqc timed out on the generated goals (machine load)")
+        elif r.returncode != 0:
+            failed.append((r.stdout + r.stderr)[-900:])
+    except OSError as e:
+        skipped.append(f"coqc not run: {e}")
+    import shutil
+    shutil.rmtree(d, ignore_errors=True)
+    chk.cov["ast_tie"] = {"goals_generated_from_source": [g[0] for g in goals], "not_translatable_counted": skipped,
+                          "proved": (not failed) and bool(goals) and not any("timed out" in x for x in skipped)}
+    chk.checker_cmds.append("coqc on build/ast/C09_*/C09_ast.v (goals regenerated from the Python ast of _tt.py, _tr_svd.py, tt_tensor.py)")
+    for msg in failed:
+        chk.broken.append({"what": "AST tie C09: a decision expression of the current source is no longer what the model computes", "detail": msg})
 
 
 # ----------------------------------------------------------------------------- Gallina literals
@@ -763,6 +955,7 @@ def run(chk):
     chk.broken = [b for b in chk.broken if not (str(b.get("what", "")).endswith("depends on non-stdlib axioms")
                                                 and not C.own_axioms([a for a in b.get("detail", []) if a != "Axioms"]))]
     tier = chk.tier
+    ast_tie(chk)
     # ---- correspondence cases (small) -------------------------------------------------------
     cases, meta = [], []
     resid = []
@@ -823,7 +1016,24 @@ def run(chk):
     extra_budget = 3 if (failing or chk.broken) else 1     # widen the search around a broken correspondence
     for rep in range(extra_budget):
         for (kind, X, rank, extra, info) in gen_predicate_cases(tier, rng, nrng):
-            st, v, calls = run_impl(kind, X, rank, extra)
+            via_class = rng.random() < 0.15      # the class entry points of the same modules
+            rank_call = rank
+            if kind in ("tt", "tucker") and rng.random() < 0.08:
+                # fractional / 'same' rank requests: the request is what validate_*_rank makes of it (computed by the implementation's
+                # own validator, then treated as the list request by the predicates)
+                rank_call = rng.choice([0.3, 0.6, 1.0, "same"])
+                try:
+                    if kind == "tt":
+                        from tensorly.tt_tensor import validate_tt_rank
+                        rank = [int(r) for r in validate_tt_rank(tuple(X.shape), rank=rank_call)]
+                    else:
+                        from tensorly.tucker_tensor import validate_tucker_rank
+                        rank = [int(r) for r in validate_tucker_rank(tuple(X.shape), rank=rank_call)]
+                    chk.hist("pred_fractional_rank", kind)
+                except Exception:
+                    rank_call = rank
+            st, v, calls = run_impl(kind, X, rank_call, extra, via_class=via_class)
+            chk.hist("pred_entry", "class.fit_transform" if via_class else "function")
             if timed_out(st, v):
                 chk.hist("skipped_timeout", kind)
                 continue
@@ -853,7 +1063,7 @@ def run(chk):
                     "NumPy reshape/transpose/moveaxis as modelled in Base/Tensor.v; n-mode product modelled at index level (Model/SvdDecomp.v mode_dot)",
                     "tape recorder: NumpyBackend.register_method('svd', wrapper) in harness/props/C09.py"]
     _install_known_loader()
-    return chk.finish({"strict_rank_uses_requested_left_rank": clf_strict_uses_requested_left_rank})
+    return chk.finish({})
 
 
 def replay(payload):
